@@ -294,3 +294,13 @@ class BicModel(Model):
             return DFA.positional(A, p8).union(DFA.positional(A, p8 + [alnum] * 3))
         self.spec = {False: mk(alnum), True: mk(alpha_)}
         self.len_ok = DFA.length_in(A, {8, 11})
+
+
+class LightModel:
+    """Just the parts of a model that rules over single functions need (no path exploration)."""
+
+    def __init__(self, ctx):
+        self.ctx = ctx
+        self.facts = ctx.facts
+        self.prog = ctx.program
+        self.va = ValidatorAnalysis(self.facts)
